@@ -91,8 +91,91 @@ class Check(PropertyCheck):
                     break
         return evs
 
+    def loss_on_full_stack(self, waiter, loss):
+        """real AshProtocol + Gateway + EZSP on the fake transport: a waiter is pending, then the connection goes away
+        by one of the paths the library has for it; returns how and when (virtual time after the loss) each waiter ended"""
+        import asyncio
+        import ashref
+        import fullstack
+        s = fullstack.Stack(ncp_version=8, ncp_up=False)          # an NCP that never answers: the waiters stay pending
+        s.add_app_callback()
+        res = {}
+
+        async def wait(key, coro):
+            try:
+                await coro
+                res[key] = ["ok", s.loop.time()]
+            except asyncio.TimeoutError:
+                res[key] = ["timeout", s.loop.time()]
+            except ConnectionError as e:
+                res[key] = ["connection-error", s.loop.time()]
+            except asyncio.CancelledError:
+                res[key] = ["cancelled", s.loop.time()]
+                raise
+            except BaseException as e:  # noqa
+                res[key] = ["raise:" + type(e).__name__, s.loop.time()]
+
+        async def main():
+            tasks = []
+            if waiter in ("reset", "both"):
+                tasks.append(s.spawn(wait("reset", s.gw.reset())))
+            if waiter in ("startup", "both"):
+                tasks.append(s.spawn(wait("startup", asyncio.wait_for(s.gw.wait_for_startup_reset(), 30))))
+            await asyncio.sleep(1.0)
+            t0 = s.loop.time()
+            if loss == "error-frame":
+                s.line._deliver(ashref.wire(("ERROR", 2, 0x52)))
+            elif loss == "rstack-other":
+                s.line._deliver(ashref.wire(("RSTACK", 2, 0x02)))
+            elif loss == "close":
+                s.ez.close()
+            elif loss == "lost":
+                s.ash.connection_lost(ConnectionAbortedError("scripted loss"))
+            elif loss == "eof":
+                s.ash.eof_received()
+            for t in tasks:
+                try:
+                    await t
+                except BaseException:  # noqa
+                    pass
+            return t0
+
+        t = s.spawn(main())
+        out = {}
+        try:
+            out["finished"] = s.run_until(t, limit=500)
+            t0 = t.result() if t.done() and not t.cancelled() and t.exception() is None else None
+            out["res"] = {k: [v[0], None if t0 is None else round(v[1] - t0, 6)] for k, v in res.items()}
+        except BaseException as e:  # noqa
+            out["crash"] = repr(e)
+        finally:
+            s.close()
+        return out
+
     def extra_checks(self, rep, tier, rng):
         """on the real AshProtocol: bytes of the reset request; counters after RSTACK from every prior value"""
+        nloss = 0
+        for waiter in ("reset", "startup", "both"):
+            for loss in ("error-frame", "rstack-other", "close", "lost", "eof"):
+                out = self.loss_on_full_stack(waiter, loss)
+                nloss += 1
+                why = None
+                if "crash" in out or not out.get("finished"):
+                    why = f"the scenario crashed or hangs: {out}"
+                else:
+                    for k, (how, dt) in out["res"].items():
+                        if how != "connection-error" or dt is None or dt > 0.001:
+                            why = (f"{k} waiter pending while the connection went away ({loss}): it ended by {how} {dt}s later; "
+                                   f"it must be released at once with the connection error")
+                    for k in (["reset"] if waiter != "startup" else []) + (["startup"] if waiter != "reset" else []):
+                        if k not in out["res"]:
+                            why = f"{k} waiter never ended ({loss})"
+                if why:
+                    rep.violation({"input": {"stack": "real AshProtocol + Gateway + EZSP, application callback registered, silent NCP",
+                                             "pending": waiter, "then": loss},
+                                   "observed": out, "required": why}, found_input=True, signature="gateway:loss:" + loss)
+                    break
+        rep.cov["full_stack_loss_scenarios"] = nloss
         import ashref
         import ashrun
         import bellows.ash as ash
